@@ -201,6 +201,58 @@ for _name, _inst in PY_QUOTERS.items():
 add(Lemma(spec_quote.lemma_unit_alphabet, [("quoter", CONST(*PY_QUOTERS.values())), ("B", BYTES), ("p", INT)],
           requires=spec_quote.lemma_requires, props=("C01",)))
 
+# ---------------------------------------------------------------- the pure-Python unquoter (C06)
+from . import spec_unquote
+from pyvc import lib as _lib
+
+
+def _unquoter_configs():
+    """the unquoter configurations, read from the real yarl/_quoters.py source"""
+    src = open(_os.path.join(_os.environ.get("PYVC_REPO", "/repo"), "yarl", "_quoters.py")).read()
+    out = {}
+    for node in _ast.parse(src).body:
+        if isinstance(node, _ast.Assign) and isinstance(node.value, _ast.Call) and \
+                getattr(node.value.func, "id", None) == "_Unquoter" and len(node.targets) == 1:
+            out[node.targets[0].id] = {k.arg: _ast.literal_eval(k.value) for k in node.value.keywords}
+    return out
+
+
+PY_UNQUOTERS = {}
+for _name, _kw in _unquoter_configs().items():
+    _inst = _qpy._Unquoter(**_kw)
+    PY_UNQUOTERS[_name] = _inst
+    spec_unquote.INSTANCE_CFG[id(_inst)] = (_kw.get("ignore", ""), _kw.get("unsafe", ""), bool(_kw.get("qs", False)))
+    spec_unquote.INSTANCE_NAME[id(_inst)] = _name
+    _lib.EXTRA_PRIMS.append((_inst._quoter, "unquoter.inner_quoter", _lib.inner_requoter(False)))
+    _lib.EXTRA_PRIMS.append((_inst._qs_quoter, "unquoter.inner_qs_quoter", _lib.inner_requoter(True)))
+
+
+def _unquoter_stream_result(ex, st, stream):
+    """reading the output list after the loop (''.join(ret)): every character of the input must
+    have been accounted for by the simulation (ghost pointer at the end); the content is, by the
+    simulation rule, the concatenation of the specification's units"""
+    import z3
+    from pyvc import values as V
+    val = st.env["val"]
+    ex.oblige(st, "output-read:simulation-complete(G_p == len(val))", "inv-exit", st.ghost["p"].t == val.len(), None, {})
+    return V.fresh_str(st.ctx, "unquoted")
+
+
+if PY_UNQUOTERS:
+    add(Contract("yarl._quoting_py:_Unquoter.__call__",
+                 [("self", CONST(*PY_UNQUOTERS.values())), ("val", UNION(OPT(STR), CONST(1, b"x")))],
+                 spec=None, spec_module=spec_unquote, raises=(TypeError,),
+                 loops={0: {"inv": ("0 <= idx and idx <= len(val) and G_p == idx - 3 * len(decoder.buffer) "
+                                    "and pending_ok(val, G_p, decoder.buffer)"),
+                            "lists": {"decoder.buffer": (0, 3)},
+                            "streams": ["ret"], "str_stream": True, "multi_token": True,
+                            "ghost": {"p": "0", "k": "0"},
+                            "step": "u_step(self, val, G_p)",
+                            "stream_result": _unquoter_stream_result}},
+                 props=("C06", "C19"),
+                 note="stream simulation of the pure-Python decoder against spec_unquote.u_step; the incremental "
+                      "decoder's hidden buffer is ghost state of the loop invariant"))
+
 # ---------------------------------------------------------------- the compiled quoter (yarl/_quoting_c.pyx)
 from pyvc import pyxfront as _pyxfront
 from pyvc import cmodel as _cmodel
